@@ -312,6 +312,12 @@ Proof.
 Qed.
 Print Assumptions watershed_idx_is_the_maximum.
 
+(* the table-driven evaluation used by the correspondence is the same function *)
+Theorem watershed_fast_evaluation_is_the_model :
+  forall E f th, custom_watershed_fast E f th = custom_watershed E f th.
+Proof. exact custom_watershed_fast_eq. Qed.
+Print Assumptions watershed_fast_evaluation_is_the_model.
+
 (* two thresholded vertices share a label iff they ascend to the same maximum *)
 Theorem watershed_label_iff_same_maximum :
   forall E f th i j, i < length f -> aboveb th (zat f i) = true -> j < length f -> aboveb th (zat f j) = true ->
